@@ -739,6 +739,9 @@ impl World {
             // resuming the parked drop early is a deviation
             all.push(Ev::Stop);
         }
+        if std::env::var_os("MC_SHOW_OPTIONS").is_some() {
+            self.log.push(Rec::S("options", format!("{all:?}")));
+        }
         let k = self.ch.borrow_mut().choose("step", all.len());
         self.log.choice_pos.set(self.ch.borrow().points.len() as u32);
         let ev = all[k].clone();
